@@ -8,7 +8,7 @@ from .. import cv, gen, lib, ref
 from ..lib import call
 
 PROP = "C12"
-PLAN = {"quick": (1600, 400), "thorough": (24000, 3600)}
+PLAN = {"quick": (1600, 400), "thorough": (240000, 3600)}
 RULE = ("case = (knot vector with non uniform / repeated knots, optional weights, data points or an in-space function, "
         "explicit or default nodes, Fraction / float); classes: over-determined data, len(points) == npts "
         "(interpolation), samples of an in-space curve (reproduction), fit_function of an in-space polynomial / rational "
